@@ -240,6 +240,17 @@ pub fn on_path(infos: &[SysInfo], lay: &Layout, x: usize, v: usize) -> bool {
     }
 }
 
+/// Strategies that need no knowledge of the dispatcher (world / meta-table engines).
+pub fn make_strategy_plain(spec: &StratSpec, seed: u64) -> Box<dyn Strategy> {
+    match spec {
+        StratSpec::LowSwitch(p) => Box::new(LowSwitch(*p)),
+        StratSpec::RoundRobin => Box::new(RoundRobin(0)),
+        StratSpec::NoPreempt => Box::new(detsim::NoPreempt),
+        StratSpec::Pct(d) => Box::new(Pct::new(seed, *d, 120)),
+        _ => Box::new(Random),
+    }
+}
+
 pub fn make_strategy(spec: &StratSpec, seed: u64, ctx: &Arc<Ctx>, lay: &Layout) -> Box<dyn Strategy> {
     match spec {
         StratSpec::Random => Box::new(Random),
